@@ -845,14 +845,23 @@ struct BcastObs {
     expected_replies: BTreeMap<(usize, u64), Value>,
 }
 
+/// Node timeout of the `silent` tag scenarios is NODE_TIMEOUT x this factor: a run in which a HEALTHY node's
+/// answer missed the timeout was disturbed by the machine (the fake node answers at once) and is repeated
+/// with a four times longer timeout.
+static TAG_TIMEOUT_SCALE: [u32; 4] = [1, 4, 16, 40];
+
 fn run_tags(ts: &TagScenario) -> Result<Vec<BcastObs>, String> {
+    run_tags_scaled(ts, 1)
+}
+
+fn run_tags_scaled(ts: &TagScenario, scale: u32) -> Result<Vec<BcastObs>, String> {
     let mut nodes = Vec::new();
     let mut cfgs = Vec::new();
     for i in 0..TAG_NODES {
         let n = FakeNode::start(&format!("n{i}"), vec![], Garbage::BadSpec, 0)?;
         let cfg = NodeConfig::new("127.0.0.1", n.port())
             .and_then(|c| c.with_name(format!("n{i}")))
-            .and_then(|c| c.with_timeout(if ts.silent { NODE_TIMEOUT } else { TAG_NODE_TIMEOUT }))
+            .and_then(|c| c.with_timeout(if ts.silent { NODE_TIMEOUT * scale } else { TAG_NODE_TIMEOUT }))
             .map_err(|e| e.to_string())?
             .with_tags(mask_tags(ts.assign[i]));
         cfgs.push(cfg);
@@ -1497,7 +1506,23 @@ fn execute_once(case: &Case) -> Result<Exec, String> {
             Ok(Exec { viols, stats, trace: dynset::trace(&obs), disturbed })
         }
         Case::Tags(ts) => {
-            let obs = run_tags(ts)?;
+            let mut obs = run_tags(ts)?;
+            if ts.silent {
+                // a healthy node whose broadcast result is a timeout although the node answered: the answer was late
+                let late = |obs: &[BcastObs]| {
+                    obs.iter().any(|b| match &b.results {
+                        Ok(m) => (0..TAG_NODES).any(|i| b.down != Some(i) && matches!(m.get(&format!("n{i}")), Some(Res::Io { kind, .. }) if kind == "TimedOut" || kind == "WouldBlock")),
+                        Err(_) => false,
+                    })
+                };
+                for scale in &TAG_TIMEOUT_SCALE[1..] {
+                    if !late(&obs) {
+                        break;
+                    }
+                    DISTURBED_RERUNS.fetch_add(1, Ordering::Relaxed);
+                    obs = run_tags_scaled(ts, *scale)?;
+                }
+            }
             let viols = judge_tags(ts, &obs);
             account_tags(&mut stats, ts, &obs);
             let trace = obs
@@ -1899,7 +1924,7 @@ pub fn run(tier: Tier) -> ! {
             "attempts are what the fake node can see: a connect() to its port (counted at the process's connect(2) boundary, which the harness interposes), or a whole request arriving on a connection; an attempt that dies inside the fleet on a connection the node already closed is invisible and is granted once per killed connection",
             "refused = the node's socket is taken out of LISTEN for exactly that connect; if 'refused' is due while the fleet still holds a live connection the node first goes down (closes it while idle)",
             "accepted-then-closed = the request has arrived but is never read and the connection is closed (RST), so the fleet's write has completed; closed-while-idle = the attempt is answered normally and, once the call has returned, the node half-closes and waits for the fleet's FIN before the next call",
-            "verdicts depend on counts and results only; time is used for one thing: a run in which a call overran by about a node timeout (>= 120 ms beyond its silent attempts) or in which a request surfaced after its call had returned was disturbed by the machine and is repeated (up to 5 times, then judged as observed)",
+            "verdicts depend on counts and results only; time is used for one thing: a run in which a call overran by about a node timeout (>= 120 ms beyond its silent attempts) or in which a request surfaced after its call had returned was disturbed by the machine and is repeated (up to 5 times, then judged as observed); a silent-node broadcast scenario in which a healthy node's answer missed the 150 ms node timeout is repeated with the timeout x4, x16, x40",
             "a violation is reported only if the same key shows in the first run of its case and in both re-runs (after a single miss: in two further runs); what does not reproduce is dropped and counted, more than 2% of scenarios dropped or more than two unreproduced watchdog expiries are a machinery error; a key proven once is not re-proven on later cases",
             "maintenance calls (connect_all, health_check, reconnect_disconnected, disconnect_all, is_connected_all, connected_nodes) are judged only for returning without a panic; what they report is counted. The excuse of one failed attempt after a connection killed while idle goes to the next operation that uses the cached client: a call or a health_check; connect_all and reconnect_disconnected do not use an existing client (the excuse carries over them), disconnect_all discards every client (nothing is left to excuse, so the next call must reconnect and succeed)",
             "a dead node refuses every connect for as long as the maintenance call or the mixed round lasts (each refused connect is counted as an attempt); a connection that connect_all / reconnect_disconnected made and on which no request has travelled yet counts as held by the fleet once the call has returned and the node has accepted it",
